@@ -110,3 +110,11 @@ T("reader-rename-locals", ["C07", "C06", "C18"], DT, "        hash = safe_read(f
   "        h = safe_read(f, 32)\n        (idx,) = struct.unpack(b\">I\", safe_read(f, 4))\n        return cls(h, idx)")
 T("from-bytes-reader", ["C07", "C18"], DT, "        (value,) = struct.unpack(b\">Q\", safe_read(f, 8))\n", "        value = int.from_bytes(safe_read(f, 8), 'big')\n")
 T("const-tag-literal", ["C07", "C18"], SIG, "        f.write(TYPE_COINBASE_DATA)", "        f.write(b'\\x01')")
+
+T("bs-rename-row-vars", ["C08"], BS, "            (value, public_key, transaction_hash, seq) = row\n            transaction_builders[transaction_hash].outputs[seq] = Output(value, PublicKey.deserialize(public_key))",
+  "            (val, pkb, txh, pos) = row\n            transaction_builders[txh].outputs[pos] = Output(val, PublicKey.deserialize(pkb))")
+T("bs-select-reorder-consistent", ["C08"], BS, "        for row in self.sql(\"select value, public_key, transaction_hash, seq from transaction_outputs\"):\n            (value, public_key, transaction_hash, seq) = row",
+  "        for row in self.sql(\"select seq, value, public_key, transaction_hash from transaction_outputs\"):\n            (seq, value, public_key, transaction_hash) = row")
+T("bs-positional-summary", ["C08"], BS, "                                height=height,\n                                previous_block_hash=zeroify_nulls(previous_block_hash),\n                                merkle_root_hash=merkle_root_hash,\n                                timestamp=timestamp,\n                                target=target,\n                                nonce=nonce\n",
+  "                                height, zeroify_nulls(previous_block_hash), merkle_root_hash, timestamp, target, nonce\n")
+T("bs-alias-writer", ["C08"], BS, "                block.header.summary.height,\n", "                block.height,\n")
